@@ -118,18 +118,20 @@ def change_type_kind(rng, ir):
 
 
 def uses_in_defaults(ir, typename):
-    def touches(t, v):
+    def touches(t, v, depth=0):
         if v is None:
             return False
+        if depth > 12:
+            return True    # (cyclic defaults) conservative: treat as used
         if t[0] in ("nonnull", "list"):
             if t[0] == "list":
-                return any(touches(t[1], x) for x in (v if isinstance(v, list) else [v]))
-            return touches(t[1], v)
+                return any(touches(t[1], x, depth + 1) for x in (v if isinstance(v, list) else [v]))
+            return touches(t[1], v, depth)
         if t[1] == typename:
             return True
         st = ir.types.get(t[1])
         if st is not None and st.kind == "input" and isinstance(v, dict):
-            return any(touches(f.type, v.get(f.name, f.default if f.has_default else None)) for f in st.input_fields)
+            return any(touches(f.type, v.get(f.name, f.default if f.has_default else None), depth + 1) for f in st.input_fields)
         return False
     for t in ir.types.values():
         for f in t.fields:
@@ -696,7 +698,11 @@ def digests(keys):
     """[(key, multiset of changes)] - used by the hash-seed subprocesses too."""
     out = []
     for key in keys:
-        a, b, applied, needles = make_pair(key)
+        try:
+            a, b, applied, needles = make_pair(key)
+        except RecursionError:
+            out.append([key, "unbuildable:RecursionError"])
+            continue
         try:
             old, new = build(a), build(b)
         except (Exception, RecursionError) as e:
@@ -718,7 +724,11 @@ def run(ctx):
     keys = ["c20:%d:%d:%d" % (ctx.seed, ctx.shard, i) for i in range(ctx.n(250))]
     mine = {}
     for key in keys:
-        a, b, applied, needles = make_pair(key)
+        try:
+            a, b, applied, needles = make_pair(key)
+        except RecursionError:
+            ctx.count("edited_schema_invalid")
+            continue
         sdl_a, sdl_b = S.to_sdl(a)[0], S.to_sdl(b)[0]
         witness = {"old_sdl": sdl_a, "new_sdl": sdl_b, "edits": applied, "needles": needles, "key": key}
         try:
@@ -746,7 +756,9 @@ def run(ctx):
             ctx.count("severity:%s" % {0: "COMPATIBLE", 1: "DANGEROUS", 2: "BREAKING"}[sev])
         # every edit is named by some change
         model = breaking_differences(a, b)
-        for e, needle in zip(applied + applied, needles):
+        # (single edits only: in combinations a later edit may act on an element that an earlier
+        # one added or removed, which is then legitimately reported as a whole)
+        for e, needle in (zip(applied, needles) if len(applied) == 1 else ()):
             if not any(needle in m for _c, m, _s in changes):
                 if "_type_" in e and not any(needle in d for d in model):
                     # retyping that is safe for every client (output tightened / input relaxed)
